@@ -64,6 +64,7 @@ const Prelude = `(set-option :produce-models true)
 (declare-fun bytesToStr ((Array Int Int) Int Int) Str)
 (assert (forall ((a (Array Int Int)) (o Int) (n Int)) (! (=> (>= n 0) (= (len (bytesToStr a o n)) n)) :pattern ((bytesToStr a o n)))))
 (assert (forall ((a (Array Int Int)) (o Int) (n Int) (i Int)) (! (=> (and (<= 0 i) (< i n) (<= 0 (select a (idx o i))) (<= (select a (idx o i)) 255)) (= (at (bytesToStr a o n) i) (select a (idx o i)))) :pattern ((at (bytesToStr a o n) i)))))
+(assert (forall ((a (Array Int Int)) (o Int) (n Int) (lo Int) (hi Int)) (! (=> (and (<= 0 lo) (<= lo hi) (<= hi n)) (= (strsub (bytesToStr a o n) lo hi) (bytesToStr a (+ o lo) (- hi lo)))) :pattern ((strsub (bytesToStr a o n) lo hi)))))
 ; ---- interfaces -----------------------------------------------------------------
 (declare-sort Iface 0)
 (declare-fun typeOf (Iface) Int)
